@@ -18,7 +18,7 @@ From VL Require Model.Hybrids Proofs.Hybrids_proofs.
 From VL Require Import Proofs.RaisesBallot_proofs Proofs.Scorers_proofs.
 From VL Require Import Proofs.HouseTie_proofs Proofs.VotesFull_proofs.
 From VL Require Model.Quota Model.QuotaDistributor.
-From VL Require Proofs.PositionalShared_proofs Proofs.RaisesAdded_proofs.
+From VL Require Proofs.PositionalShared_proofs Proofs.RaisesAdded_proofs Proofs.LRMono_proofs.
 Import ListNotations.
 Open Scope Z_scope.
 
@@ -955,6 +955,33 @@ Proof. exact RaisesAdded_proofs.minimax_winvotes_added_long_refuted. Qed.
 Definition C17_ballot_rank_example := RaisesAdded_proofs.rank_example.
 Definition C17_ballot_added_example := RaisesAdded_proofs.added_example.
 
+
+(* ... and what IS true of largest remainder (Proofs/LRMono_proofs.v; again not claimed by the property): with the EXACT Hare quota V / n, no previous
+   gains and no caps, a party that gains votes while the others keep theirs keeps the seats it holds for certain ([kdget], the plain key) and its
+   possible total ([kposs] = plain key + 1 when it is a member of a Tie key), for every over-award policy and any insertion order of the new dictionary;
+   the evaluation is always defined on this domain (C17_lr_hare_defined).  The whole-quota stage gives floor(v / q), the remainder stage is get_n_best on
+   the fractional parts: a party at or above p afterwards either had its floor dropped (each such drop opens a remainder seat) or was at or above p before. *)
+Theorem C17_lr_hare_votes : forall (pol : QuotaDistributor.policy) (votes votes' : list (C * Q)) (n : Z) (p : C) (vp vp' : Q) s1 s2,
+  1 <= n -> NoDup (map fst votes) -> NoDup (map fst votes') ->
+  (forall c v, In (c, v) votes -> (0 <= v)%Q) -> (forall c v, In (c, v) votes' -> (0 <= v)%Q) -> (0 < QuotaDistributor.qsumv votes)%Q ->
+  dget votes p = Some vp -> dget votes' p = Some vp' -> (vp <= vp')%Q ->
+  (forall c, c <> p -> dget votes' c = dget votes c) ->
+  QuotaDistributor.lr_evaluate Quota.hare true pol votes n [] [] = QuotaDistributor.LR_ok s1 ->
+  QuotaDistributor.lr_evaluate Quota.hare true pol votes' n [] [] = QuotaDistributor.LR_ok s2 ->
+  QuotaDistributor.kdget s1 p <= QuotaDistributor.kdget s2 p /\ LRMono_proofs.kposs s1 p <= LRMono_proofs.kposs s2 p.
+Proof.
+  intros pol votes votes' n p vp vp' s1 s2 Hn Hnd Hnd' Hv Hv' Hq Hp Hp' Hle Hoth H1 H2. split.
+  - exact (LRMono_proofs.lr_hare_votes_monotone pol votes votes' n p vp vp' s1 s2 Hn Hnd Hnd' Hv Hv' Hq Hp Hp' Hle Hoth H1 H2).
+  - exact (LRMono_proofs.lr_hare_votes_monotone_possible pol votes votes' n p vp vp' s1 s2 Hn Hnd Hnd' Hv Hv' Hq Hp Hp' Hle Hoth H1 H2).
+Qed.
+
+Theorem C17_lr_hare_defined : forall (pol : QuotaDistributor.policy) (votes : list (C * Q)) (n : Z),
+  1 <= n -> NoDup (map fst votes) -> (forall c v, In (c, v) votes -> (0 <= v)%Q) -> (0 < QuotaDistributor.qsumv votes)%Q ->
+  exists s, QuotaDistributor.lr_evaluate Quota.hare true pol votes n [] [] = QuotaDistributor.LR_ok s.
+Proof. exact LRMono_proofs.lr_hare_defined. Qed.
+
+Definition C17_lr_hare_example := LRMono_proofs.lr_hare_mono_example_tie.
+
 Print Assumptions C17_house.
 Print Assumptions C17_house_any.
 Print Assumptions C17_votes.
@@ -1033,3 +1060,5 @@ Print Assumptions C17_ballot_added_lifts.
 Print Assumptions C17_minimax_ballots_added.
 Print Assumptions C17_copeland_added_long_refuted.
 Print Assumptions C17_minimax_winvotes_added_long_refuted.
+Print Assumptions C17_lr_hare_votes.
+Print Assumptions C17_lr_hare_defined.
